@@ -30,7 +30,7 @@ ASSUMPTIONS = c03.ASSUMPTIONS + [
 @st.composite
 def cases(draw, tier):
     spec = draw(c03.cases(tier, big=False))
-    if draw(st.integers(0, 24)) == 0:
+    if draw(st.integers(0, 11)) == 0:
         # hundreds / thousands of rows (a recipe), incl. exactly 256 / 1024 / 65536 rows, no dimension at all, a single
         # category, and no missing value anywhere
         spec = draw(Q.large_specs(c03.AGGS))
